@@ -402,6 +402,50 @@ def oracle_no_stamped_garbage(c):
     return None
 
 
+def oracle_effect_or_error(c):
+    """model-independent (C07): a CreateFolder / CreateSymlink / DeleteFile / DeleteFolder / DeleteSymlink whose effect is not there in the end
+    (and whose path no later command touches) was answered with an error: per kind, at least as many error responses as such commands"""
+    if 'i_fs' not in c or not c['cmds'] or c['cmds'][0][0][0] != 'SR':
+        return None
+    cmds = c['cmds'][1:c['done']]
+    if any(m[0] == 'SR' for m, _ in cmds):
+        return None
+    root = bytes.fromhex(c['cmds'][0][0][1][1:]).decode(errors='surrogateescape').rstrip('/')
+    snap = dict(e.split('=', 1) for e in c['i_fs'].split(';') if '=' in e)
+    def key(rel):
+        return rel.encode(errors='surrogateescape').hex()
+    def related(a, b):
+        return a == b or a.startswith(b + b'/') or b.startswith(a + b'/')
+    paths = [bytes.fromhex(m[1][1:]) if len(m) > 1 and m[1].startswith('x') else None for m, _ in cmds]
+    need, examples = {}, {}
+    for i, (m, _) in enumerate(cmds):
+        if m[0] not in ('CF', 'CS', 'DF', 'DD', 'DS') or not paths[i]:
+            continue
+        q = paths[i]
+        if any(pj is not None and related(q, pj) for pj in paths[i + 1:]) or any(mj[0] == 'CRA' for mj, _ in cmds[i + 1:]):
+            continue
+        rel = os.path.normpath(root + '/' + q.decode(errors='surrogateescape'))
+        comps = rel.split('/')
+        anc = [snap.get(key('/'.join(comps[:k]))) for k in range(1, len(comps))]
+        if any(a is not None and a != 'D' for a in anc):
+            continue              # reached through something that is not a real folder in the end: not judged here
+        final = snap.get(key(rel)) if all(a == 'D' for a in anc) else None
+        effect = {'CF': final == 'D', 'CS': final is not None and final.startswith('L:'), 'DF': final is None, 'DD': final is None, 'DS': final is None}[m[0]]
+        if not effect:
+            grp = 'links' if m[0] in ('CS', 'DS') else m[0]
+            need[grp] = need.get(grp, 0) + 1
+            examples.setdefault(grp, (' '.join(m), final))
+    resp = c.get('i_resp', [])
+    have = {'CF': sum(r.startswith('Error(CreateFolder') for r in resp), 'DF': sum(r.startswith('Error(DeleteFile') for r in resp), 'DD': sum(r.startswith('Error(DeleteFolder') for r in resp),
+            'links': sum(r.startswith(('Error(CreateSymlink', 'Error(DeleteSymlink', 'Error(SymlinkKind')) for r in resp)}
+    for grp, n in need.items():
+        if have[grp] < n:
+            cmd, final = examples[grp]
+            return (f'{n} command(s) of kind {grp} left no effect (e.g. "{cmd}": the path holds {final if final is None else final[:40]} in the end and nothing touched it afterwards) '
+                    f'but only {have[grp]} error response(s) of that kind came back: a failure was not reported')
+    return None
+
+
 def describe(c):
     return dict(root=c['root'], world=[(n[0], n[1]) + tuple((x.hex() if isinstance(x, bytes) and len(x) <= 40 else (f'<{len(x)} bytes>' if isinstance(x, bytes) else x)) for x in n[2:]) for n in c['world'].nodes],
                 commands=[' '.join(m) for m, _ in c['cmds']], filters=c['filters'], model=c.get('model', '')[:1500], impl=c.get('impl', '')[:1500], problem=c.get('problem'))
